@@ -47,6 +47,16 @@ func c17Cred(r *Rng, attr string) *ACred {
 		c.TypeName, c.TypeIRI = "SerRevCredential", "https://example.com/types#SerRev"
 	}
 	c.TopTypes = []string{"VerifiableCredential", c.TypeName}
+	if r.Chance(30) {
+		// the pair may come in either order, and the subject need not say what it is: the type is then the one next to
+		// VerifiableCredential, whichever side it stands on
+		if r.Bool() {
+			c.TopTypes = []string{c.TypeName, "VerifiableCredential"}
+		}
+		if r.Bool() {
+			c.SubjectTypeAs = "none"
+		}
+	}
 	return c
 }
 
